@@ -32,6 +32,11 @@ def run(ctx):
     ctx.extra["explanation"] = ("Deductive: both prior forms, the outlier prior (nested loops by inductive loop contracts), both joint forms and their fused computation "
                                 "equal the FS-CRP formulas for any K, R, D, G, outliers. Bounded: independent reference implementation on all trees over <=3 (4) points, "
                                 "five construction histories each, equality/hash.")
+    if ctx.tier == "thorough":
+        from vcheck import lean as L
+
+        for f_ in ("MGeom.lean",):
+            L.check_file(ctx, f_, "C03")
     from bounded import joint as BJ
 
     r = BJ.run(ctx.tier, ctx.seed)
